@@ -2,6 +2,9 @@
 `Feature::from_vec` / `Vec::<f32>::from_vec` / `distance::{euclidean, cosine}` (harness bin `feature`).
 
 What is compared
+* ALL public conversion entry points of src/track/utils.rs (the three `FromVec` impls: &Vec<f32> -> Feature, owned Vec<f32> ->
+  Feature, &Feature -> Vec<f32>) go through the packing correspondence and the round-trip oracle, by-value and by-reference
+  packing are cross-checked bit for bit, and the distances are evaluated on features built through each of them;
 * packing: the lanes of every f32x8 block and the unpacked vector, EXACTLY (bit patterns) against Model/Feature.v
   instantiated at bit patterns (A := N, zero := 0 = +0.0); every length 0..=130, values incl. NaN/inf/-0.0/subnormals;
 * distances: the model over exact rationals (Qops) gives sqdist, dot and the two squared norms of the packed forms;
@@ -56,12 +59,13 @@ def parse_line(line):
     for t in toks[2:]:
         k, v = t.split("=", 1)
         rec[k] = v
-    for key in ("in", "out", "u", "v", "a", "b", "c"):
-        if key in rec:
+    for key in ("in", "out", "outv", "u", "v", "a", "b", "c"):
+        if key in rec and rec[key] != "P":
             rec[key] = pv(rec[key])
-    if "blocks" in rec:
-        rec["blocks"] = [pv(b) for b in rec["blocks"].split("|") if b]
-    for key in ("eu", "eur", "cos", "cosr", "euu", "cosuu", "dab", "dbc", "dac", "coss", "cosp", "ka", "kb", "kf"):
+    for key in ("blocks", "blocksv"):
+        if key in rec and rec[key] != "P":
+            rec[key] = [pv(b) for b in rec[key].split("|") if b]
+    for key in ("eu", "eur", "cos", "cosr", "euu", "cosuu", "euv", "cosv", "eum", "cosm", "dab", "dbc", "dac", "coss", "cosp", "ka", "kb", "kf"):
         if key in rec:
             rec[key] = "P" if rec[key] == "P" else int(rec[key])
     return rec
@@ -155,30 +159,44 @@ def val(b):
 # ------------------------------------------------------------------------------------------------------------
 # property oracles (implementation output only)
 
+ENTRY = {"out": "Feature::from_vec(&vec) then Vec::from_vec(&feature)", "outv": "Feature::from_vec(vec) [owned Vec] then Vec::from_vec(&feature)"}
+
+
 def oracle_pack(r):
-    if r.get("res") == "P":
-        return [("C16:panic", "from_vec panicked on a vector of length %d" % len(r["in"]))]
+    """round trip through EVERY conversion entry point; by-value and by-reference packing must agree bit for bit"""
     n = len(r["in"])
-    out = r["out"]
-    exp_pad = [(8 - n % 8) % 8] if n > 0 else [0, 8]
-    if out[:n] != r["in"]:
-        return [("C16:roundtrip", "length %d: the first %d unpacked values differ from the input" % (n, n))]
-    if len(out) - n not in exp_pad or len(out) % 8 != 0:
-        return [("C16:roundtrip", "length %d: unpacked length %d is not the input padded to the next multiple of eight" % (n, len(out)))]
-    if any(b not in (0, 0x80000000) for b in out[n:]):
-        return [("C16:roundtrip", "length %d: the padding is not zero" % n)]
-    return []
+    res = []
+    for key in ("out", "outv"):
+        if key not in r:
+            continue
+        out = r[key]
+        if out == "P":
+            res.append(("C16:panic", "%s panicked on a vector of length %d" % (ENTRY[key], n)))
+            continue
+        exp_pad = [(8 - n % 8) % 8] if n > 0 else [0, 8]
+        if out[:n] != r["in"]:
+            res.append(("C16:roundtrip", "length %d, %s: the first %d unpacked values differ from the input" % (n, ENTRY[key], n)))
+        elif len(out) - n not in exp_pad or len(out) % 8 != 0:
+            res.append(("C16:roundtrip", "length %d, %s: unpacked length %d is not the input padded to the next multiple of eight" % (n, ENTRY[key], len(out))))
+        elif any(b not in (0, 0x80000000) for b in out[n:]):
+            res.append(("C16:roundtrip", "length %d, %s: the padding is not zero" % (n, ENTRY[key])))
+    if not res and "blocksv" in r and r["blocksv"] != r["blocks"]:
+        res.append(("C16:entry-points-differ", "length %d: Feature::from_vec(vec) packs %d blocks, Feature::from_vec(&vec) packs %d: the two differ" % (
+            n, len(r["blocksv"]), len(r["blocks"]))))
+    return res
 
 
 def oracle_dist(r):
     res = []
-    for key in ("eu", "eur", "cos", "cosr", "euu", "cosuu"):
-        if r[key] == "P":
+    for key in ("eu", "eur", "cos", "cosr", "euu", "cosuu", "euv", "cosv", "eum", "cosm"):
+        if r.get(key) == "P":
             return [("C16:panic", "%s panicked on lengths (%d, %d)" % ("euclidean" if key.startswith("eu") else "cosine", len(r["u"]), len(r["v"])))]
     s, d, n1, n2 = textbook(r["u"], r["v"])
     _, _, nu, _ = textbook(r["u"], r["u"])
     lens = "lengths (%d, %d)" % (len(r["u"]), len(r["v"]))
-    for key in ("eu", "eur"):
+    for key in ("eu", "eur", "euv", "eum"):
+        if key not in r:
+            continue
         e = val(r[key])
         if e is None or e < 0 or abs(e * e - s) > TOL * s:
             res.append(("C16:euclid-value", "%s: euclidean = %s but the textbook sqrt(sum (u_i - v_i)^2) = sqrt(%s)" % (
@@ -191,7 +209,9 @@ def oracle_dist(r):
     if euu is None or euu * euu > TOL * TOL * nu:
         res.append(("C16:euclid-refl", "length %d: euclidean(u,u) = %s, not zero" % (len(r["u"]), None if euu is None else float(euu))))
     if n1 * n2 > 0:
-        for key in ("cos", "cosr"):
+        for key in ("cos", "cosr", "cosv", "cosm"):
+            if key not in r:
+                continue
             c = val(r[key])
             if c is None or not cos_close(c, d, n1 * n2, TOL):
                 res.append(("C16:cosine-value", "%s: cosine = %s but the textbook dot/(|u||v|) = %s" % (
@@ -375,7 +395,7 @@ def run(chk):
             nontrivial.add(("pack", n, r["k"]))
         if pack_model is not None:
             mb, mo = pack_model[i]
-            if r.get("res") == "P" or mb != r["blocks"] or mo != r["out"]:
+            if any(r.get(kb, mb) != mb or r.get(ko, mo) != mo for kb, ko in (("blocks", "out"), ("blocksv", "outv"))):
                 pack_dis.append(i)
     for i, r in enumerate(dists):
         lu, lv = len(r["u"]), len(r["v"])
@@ -439,8 +459,8 @@ def run(chk):
         for key, (r, msg) in sorted(by_key.items()):
             small = shrink(r, key)
             msgs = [m for k, m in oracle(small) if k == key] or [msg]
-            dec = {k: fl(small[k]) for k in ("in", "out", "u", "v", "a", "b", "c") if k in small}
-            for k in ("eu", "eur", "cos", "cosr", "euu", "cosuu", "dab", "dbc", "dac", "coss", "cosp", "ka", "kb", "kf"):
+            dec = {k: fl(small[k]) for k in ("in", "out", "outv", "u", "v", "a", "b", "c") if k in small and small[k] != "P"}
+            for k in ("eu", "eur", "cos", "cosr", "euu", "cosuu", "euv", "cosv", "eum", "cosm", "dab", "dbc", "dac", "coss", "cosp", "ka", "kb", "kf"):
                 if k in small:
                     dec[k] = "panic" if small[k] == "P" else vlib.f32_bits_to_float(small[k])
             if chk.is_known(key) is None:
@@ -454,7 +474,7 @@ def run(chk):
         if pack_dis:
             r = packs[pack_dis[0]]
             rep["input"] = replay_text(r)
-            rep["implementation"] = {"blocks": r.get("blocks"), "out": r.get("out")}
+            rep["implementation"] = {"blocks": r.get("blocks"), "out": r.get("out"), "blocksv": r.get("blocksv"), "outv": r.get("outv")}
             rep["model"] = {"blocks": pack_model[pack_dis[0]][0], "out": pack_model[pack_dis[0]][1]}
             what += " packing: model/implementation differ on %d cases" % len(pack_dis)
         elif dist_dis:
@@ -477,7 +497,7 @@ def replay(chk, path):
     for k, m in res:
         print("%s: %s" % (k, m))
     if "model" in rep and r["what"] == "pack":
-        if rep["model"]["out"] != r.get("out") or rep["model"]["blocks"] != r.get("blocks"):
+        if any(rep["model"]["out"] != r.get(ko) or rep["model"]["blocks"] != r.get(kb) for kb, ko in (("blocks", "out"), ("blocksv", "outv"))):
             res.append(("C16:tie-broken", "differs from the model"))
             print("differs from the stored model result")
     print("REPRODUCED" if res else "not reproduced")
